@@ -5,12 +5,12 @@
    the relativization choices). *)
 From DV Require Import Base.Prelude Model.NameM Model.TokM Model.RdTextM.
 From DV Require Import Proofs.NameValid Proofs.NameText Proofs.TokEsc Proofs.TokTxt Proofs.TokWords
-     Proofs.TokDec Proofs.TokHex Proofs.TokShape Proofs.TokGeneric Proofs.TokUtf8 Proofs.RdTextName Proofs.RdTextAddr Proofs.RdTextBitmap Proofs.RdTextTypes Proofs.RdTextB32 Proofs.RdTextSig Proofs.RdTextEui Proofs.RdTextFmtHex Proofs.RdTextTail Proofs.RdTextGpos.
+     Proofs.TokDec Proofs.TokHex Proofs.TokShape Proofs.TokGeneric Proofs.TokUtf8 Proofs.RdTextName Proofs.RdTextAddr Proofs.RdTextBitmap Proofs.RdTextTypes Proofs.RdTextB32 Proofs.RdTextSig Proofs.RdTextEui Proofs.RdTextFmtHex Proofs.RdTextTail Proofs.RdTextGpos Proofs.RdTextApl.
 From DV Require Model.SchemaM.
 Open Scope Z_scope.
 
 Definition is_rest (f : tfield) : bool :=
-  match f with FHexRest | FB64Rest _ | FTxtRest | FBitmap | FQOpt | FNamesRest | FB64RestOpt | FB64RestE | FKeyRec => true | _ => false end.
+  match f with FHexRest | FB64Rest _ | FTxtRest | FBitmap | FQOpt | FNamesRest | FB64RestOpt | FB64RestE | FKeyRec | FAplRest => true | _ => false end.
 
 (* non-empty; the fields that read the rest of the line come last *)
 Fixpoint schema_wf (fs : list tfield) : Prop :=
@@ -54,6 +54,7 @@ Definition val_ok (f : tfield) (v : tval) : Prop :=
   | FMac, VBytes b => all_bytes b = true /\ b <> [] /\ zlen b <= 65535
   | FOther, VBytes b => all_bytes b = true /\ zlen b <= 65535
   | FGposStr, VBytes b => (exists p, SchemaM.parse_float b = Some p) /\ zlen b <= 255
+  | FAplRest, VApl items => Forall item_ok items
   | FKeyRec, VKey f p a at_ k =>
       0 <= f <= 65535 /\ 0 <= p <= 255 /\ 0 <= a <= 255 /\ at_ = [] /\ all_bytes k = true /\
       (if Z.land f 49152 =? 49152 then k = [] else k <> [])
@@ -209,7 +210,7 @@ Lemma field_ok sty c f v ftext v' R q bl :
                              \/ exists q' bl', forallb is_blank bl' = true /\ st_end = stq q' (bl' ++ R)).
 Proof.
   intros (Hhs & Hbs & HO) Hv Hp He Hbl HR1 HR2.
-  destruct f as [maxv| |tokmax ctormax ne| | |sc| |v6| | | | | |k| |maxc| |en| | | | |bmax| | | |ipsec| | | | |]; destruct v as [z|b|n|l|ws|nl|g a gw|kf kp ka kat kk]; cbn [val_ok] in Hv; try contradiction;
+  destruct f as [maxv| |tokmax ctormax ne| | |sc| |v6| | | | | |k| |maxc| |en| | | | |bmax| | | |ipsec| | | | | |]; destruct v as [z|b|n|l|ws|nl|g a gw|items|kf kp ka kat kk]; cbn [val_ok] in Hv; try contradiction;
     cbn [print_field] in Hp; cbn [expect] in He; cbn [is_rest] in HR1, HR2.
   - (* FDec *)
     inversion Hp; subst ftext. inversion He; subst v'. specialize (HR1 eq_refl).
@@ -854,6 +855,44 @@ Proof.
       rewrite has_bs_safe by exact Hs. cbn [negb bind fst snd]. unfold as_string, is_identifier, is_quoted. cbn [ttype tvalue].
       change (tIDENT =? tIDENT) with true. change (0 =? 0) with true. reflexivity.
     + cbn [ctor_field]. rewrite utf8_ascii by exact Ha. cbn [bind]. replace (zlen b >? 255) with false by lia. reflexivity.
+  - (* FAplRest *)
+    specialize (HR2 eq_refl). inversion He; subst v'.
+    destruct (map_res apl_item_text items) as [ts| |] eqn:Ets; cbn [bind] in Hp; try discriminate.
+    inversion Hp; subst ftext. clear Hp.
+    destruct (apl_items_texts items Hv ts Ets) as (Hw & Hsafe & Hback).
+    destruct ts as [|t1 ts'].
+    + cbn [join_sp app].
+      destruct (get0_end_q_len q bl R Hbl HR2) as (t & st & H1 & H2 & H3 & H4 & H5 & E).
+      exists t, st. split; [exact E|]. split; [exact H4|]. split.
+      { destruct (eol_not_ws t H1) as [A B]. unfold tok_plain. rewrite A, B, H2. repeat split; reflexivity. }
+      split; [unfold stq; cbn [inp]; rewrite !app_length; lia|].
+      intros stX HX _.
+      assert (Hst : exists st2, unget st t = Ok st2 /\ ungot st2 = Some t).
+      { unfold unget. rewrite H4. eexists. split; reflexivity. }
+      destruct Hst as (st2 & U1 & U2).
+      exists (VApl items), st2. split; [|split; [reflexivity|split; [discriminate|intros _; left; exists t; split; assumption]]].
+      cbn [parse_field]. unfold get_remaining, rem_fuel. rewrite grl_unfold. rewrite HX. cbn [bind]. rewrite H1, U1.
+      cbn [bind rev fst snd]. cbn [map] in Hback. rewrite Hback. reflexivity.
+    + inversion Hw as [|? ? [Hu1 Hne1] Hw']; subst. inversion Hsafe as [|? ? Hs1 _]; subst.
+      rewrite join_sp_cons_spaced.
+      assert (Hshape : bl ++ (t1 ++ spaced ts') ++ R = bl ++ t1 ++ (spaced ts' ++ R)) by (rewrite <- !app_assoc; reflexivity).
+      rewrite Hshape.
+      pose proof (get0_word_q q bl t1 (spaced ts' ++ R) Hbl Hu1 Hne1 (spaced_word_end ts' R HR2)) as E.
+      exists (utok t1), (stq false (spaced ts' ++ R)).
+      split; [exact E|]. split; [reflexivity|]. split.
+      { unfold tok_plain, is_identifier, utok. cbn [ttype tvalue]. rewrite safe_word_not_hash by exact Hs1. repeat split; reflexivity. }
+      split; [apply stq_len_word|].
+      intros stX HX HL.
+      destruct (grl_uwords ts' Hw' false R (S (length (inp stX))) [utok t1] HR2) as (te & st & T1 & T2 & E2).
+      { assert (Hlen : (length ts' <= length (spaced ts' ++ R))%nat).
+        { clear. rewrite app_length. induction ts' as [|x l IH]; cbn [spaced flat_map length]; [lia|].
+          rewrite app_length. cbn [length]. unfold spaced in IH. lia. }
+        unfold stq in HL. cbn [inp pend app] in HL. lia. }
+      exists (VApl items), st. split; [|split; [reflexivity|split; [discriminate|intros _; left; exists te; split; assumption]]].
+      cbn [parse_field]. unfold get_remaining, rem_fuel. rewrite grl_unfold. rewrite HX. cbn [bind].
+      assert (Heol : is_eol_or_eof (utok t1) = false) by reflexivity. rewrite Heol.
+      rewrite E2. cbn [bind rev app fst snd].
+      change (utok t1 :: map utok ts') with (map utok (t1 :: ts')). rewrite Hback. reflexivity.
   - (* FKeyRec *)
     destruct Hv as (Hf & Hpr & Hal & -> & Hk & Hnk). inversion Hp; subst ftext. inversion He; subst v'.
     specialize (HR2 eq_refl). clear Hp.
@@ -933,7 +972,7 @@ Qed.
 (* the text of a field that brings its own separator is empty or starts with a blank *)
 Lemma tail_text_shape sty f v b : field_sep f = [] -> print_field sty f v = Ok b -> b = [] \/ exists b', b = 32 :: b'.
 Proof.
-  intros Hs Hp. destruct f; try discriminate; destruct v as [z|x|n|l|ws|nl|g a gw|kf kp ka kat kk]; try discriminate; cbn [print_field] in Hp.
+  intros Hs Hp. destruct f; try discriminate; destruct v as [z|x|n|l|ws|nl|g a gw|items|kf kp ka kat kk]; try discriminate; cbn [print_field] in Hp.
   - (* FBitmap *) destruct ws as [|w ws]; [inversion Hp; left; reflexivity|]. cbn [bitmap_to_text] in Hp.
     destruct (map_res rdtype_to_text (window_types (fst w) 0 (snd w))); cbn [bind] in Hp; try discriminate.
     destruct (bitmap_to_text ws); cbn [bind] in Hp; try discriminate. inversion Hp. right. eexists. reflexivity.
@@ -942,6 +981,7 @@ Proof.
     inversion Hp. destruct ts as [|t ts]; [left; reflexivity|right; cbn [flat_map app]; eexists; reflexivity].
   - (* FB64RestOpt *) destruct (is_nil x); inversion Hp; [left; reflexivity|right; eexists; reflexivity].
 Qed.
+
 
 Lemma field_sep_cases f : (field_sep f = [32]) \/ (field_sep f = [] /\ is_rest f = true).
 Proof. destruct f; auto. Qed.
